@@ -33,6 +33,7 @@ FIXED=[
  ("C19","slice or pointer type that is its own element type","grammar.go indirectType","Build died with a fatal stack overflow for a field of type `type L []L` or `type P *P` (with @@ or a plain capture): indirectType recursed through Elem() without end (an independent reviewer's remark, reproduced by the static-type cases of C19)"),
  ("C19","Union() with a nil member","options.go Union","Build panicked (nil pointer dereference in parseType) for Union[I](A{}, nil)"),
  ("C08","productions the root does not reach","parser.go Build / validate.go","Build[Root](Union[U](A{})) accepted a left-recursive A when Root never uses U, and ParserForProduction[A] then handed out a parser that recurses without consuming input (an independent reviewer's remark; reproduced by the unused-union templates and by random C08 grammars that declare a union they do not use)"),
+ ("C16","state without rules is lost","lexer/stateful.go New / Rules","a definition with an empty state (`\"Empty\": {}` as a push target) marshalled to JSON without that state, and lexer.New on the unmarshalled rules failed with `push to unknown state` (an independent reviewer's remark; reproduced by the hollow-state rule maps added to C16)"),
  ("C19","Parseable with a value receiver","grammar.go parseType","Build panicked (reflect: Elem of invalid type) for a field or root type that implements Parseable with a value receiver (found by the static-type cases added to C19 after an independent reviewer's remark)"),
  ("C19","modifier, capture or negation with no operand","grammar.go parseModifier/parseCapture/parseNegation","Build panicked (value \"<nil>\") on tags `@`, `?`, `!`, `~`, `\"a\" @`, `! !`, parser:\"@\""),
  ("C06","capturing an empty match into a lexer.Token","nodes.go setField","`Tok lexer.Token \"@(\\\"a\\\"?)\"` on input without the optional token: index out of range [0] in setField (witness grammar W4)"),
